@@ -9,7 +9,8 @@
 From Coq Require Import List NArith ZArith Bool String.
 From BS Require Import Base.Sexp Base.Types Base.Lit Gen.Tables Gen.Stdlib Gen.T_C05 Gen.Entities
      Model.Attrs Model.Render Model.Reparse Model.Build Model.SmartQuotes Spec.BuildSpec Spec.RenderSpec Spec.RoundTrip
-     Proofs.RenderProofs Proofs.RoundTripProofs Proofs.NormProofs Proofs.RoundTripHtml.
+     Proofs.RenderProofs Proofs.RoundTripProofs Proofs.NormProofs Proofs.RoundTripHtml
+     Model.Adapter Model.Tokenizer Model.TokParse Spec.DocWrite Spec.RenderTok Proofs.AdapterCompose Proofs.RenderTokProofs.
 From BS Require Model.EntitySubst.
 Import ListNotations.
 Open Scope N_scope.
@@ -259,3 +260,88 @@ Example C05_example :
   lit "<!DOCTYPE html>" ++ [10] ++
   lit "<p class=""x y"" title=""a&amp;b&quot;c'&lt;"">1 &lt; 2 &amp;amp; 3<br/><!-- c --></p><script>a<b&&c</script><![CDATA[x]]]]><?pi ?>".
 Proof. repeat split; vm_compute; reflexivity. Qed.
+
+(* ================= from the rendered STRING (the tokenizer inside the model) =================
+   Model/Tokenizer.v is the model of the installed html/parser.py + _markupbase.py (tied by correspondence and by
+   fingerprints, Props/C18.v); [callbacks unesc text] is what BeautifulSoupHTMLParser receives for a text, [adapted] what
+   the adapter model (Model/Adapter.v) makes of it, [parse_string] the heap built.  [unesc] stands for html.unescape.
+   [toks_covered rc toks] (Spec/RenderTok.v) is the sub-domain: element names [a-z][a-z0-9-.:_]*; start tags only for
+   non-void elements, void elements as empty-element tags with "/"; script / style elements holding at most one piece of
+   raw text free of '<'; attribute names [a-z_:][a-z0-9-.:_]*, distinct, every value laid out between double quotes or,
+   when it contains a double quote, between single quotes (references allowed); character data in which every '&' begins
+   a complete reference &name; / &#digits; / &#xhex; (what substitute_xml / substitute_html produce); comments without
+   '--', CDATA sections without ']', processing instructions, declarations and doctypes without '>'; hidden tags.
+   PARTIAL: void elements written as start tags, raw text containing '<' or in several strings, comments containing '--',
+   names with other characters and bare '&' in text are outside these theorems (token level + correspondence as before). *)
+
+(* For EVERY covered token list: tokenizing its spelling and adapting the callbacks builds exactly what the token-level
+   reader's events build (same documented fold), and html.parser does not reject the text.  [text_value] — what
+   handle_data / handle_entityref / handle_charref make of a piece of character data — is the reader's rt, html.unescape
+   (with "" for "") its ra.  No assumption on unesc. *)
+Theorem C05_rendered_string_read_partial : forall unesc cfg rc,
+  (forall n, can_be_empty (a_b cfg) n = memS n (r_void rc)) ->
+  forall toks, toks_covered rc toks = true ->
+  rejected unesc (List.concat (map spell toks)) = false /\
+  spec_run (a_b cfg) (adapted cfg (callbacks unesc (List.concat (map spell toks)))) =
+  spec_run (a_b cfg) (read_tokens (text_value (a_orig cfg)) (attr_read unesc) rc toks).
+Proof. exact rendered_string_read. Qed.
+Print Assumptions C05_rendered_string_read_partial.
+
+(* The round trip through the STRING: render, tokenize, adapt, build = the normalised tree (fold and heap), for every
+   representable tree whose tokens are covered, whenever the formatter's substitution g is undone by what the parser
+   makes of character data and by html.unescape on attribute values (both hypotheses are evaluated by the harness on
+   every string it meets, the second one against the real html.unescape). *)
+Theorem C05_string_round_trip_partial : forall unesc enc f rc cfg g t,
+  f_subst f = Some g -> g [] = [] ->
+  (forall s, text_value (a_orig cfg) (g s) = s) ->
+  (forall s, attr_read unesc (attr_inner (g s)) = s) ->
+  f_void f <> [] ->
+  memS (c_root (a_b cfg)) (c_pw (a_b cfg)) = false -> assocS (c_root (a_b cfg)) (c_containers (a_b cfg)) = None ->
+  (forall n, can_be_empty (a_b cfg) n = memS n (r_void rc)) ->
+  representable_top f rc (a_b cfg) t = true ->
+  toks_covered rc (tokens_of enc f t) = true ->
+  rejected unesc (decode enc f None t) = false /\
+  spec_run (a_b cfg) (adapted cfg (callbacks unesc (decode enc f None t))) = flat_tree (a_b cfg) (norm enc f (a_b cfg) t) /\
+  heap_is (parse_string cfg unesc (decode enc f None t)) (flat_tree (a_b cfg) (norm enc f (a_b cfg) t)).
+Proof. exact string_round_trip. Qed.
+Print Assumptions C05_string_round_trip_partial.
+
+(* what the parser makes of substitute_xml's output is the text itself: every string *)
+Theorem C05_text_value_inverts_substitute_xml : forall orig s, text_value orig (subst_xml s) = s.
+Proof. exact text_value_subst_xml. Qed.
+Print Assumptions C05_text_value_inverts_substitute_xml.
+
+(* hence, for the 'minimal' formatter and with C09's model of html.unescape in the place of html.unescape, NOTHING is
+   assumed: every representable tree with covered tokens comes back, from the rendered STRING, as its normalised tree *)
+Theorem C05_string_round_trip_minimal_partial : forall enc f rc cfg t,
+  f_subst f = Some subst_xml -> f_void f <> [] ->
+  memS (c_root (a_b cfg)) (c_pw (a_b cfg)) = false -> assocS (c_root (a_b cfg)) (c_containers (a_b cfg)) = None ->
+  (forall n, can_be_empty (a_b cfg) n = memS n (r_void rc)) ->
+  representable_top f rc (a_b cfg) t = true ->
+  toks_covered rc (tokens_of enc f t) = true ->
+  rejected EntitySubst.unescape (decode enc f None t) = false /\
+  spec_run (a_b cfg) (adapted cfg (callbacks EntitySubst.unescape (decode enc f None t))) =
+    flat_tree (a_b cfg) (norm enc f (a_b cfg) t) /\
+  heap_is (parse_string cfg EntitySubst.unescape (decode enc f None t)) (flat_tree (a_b cfg) (norm enc f (a_b cfg) t)).
+Proof. exact string_round_trip_minimal. Qed.
+Print Assumptions C05_string_round_trip_minimal_partial.
+
+(* the hypotheses are satisfiable: a document with a doctype, nested elements, attributes, markup-significant text, a
+   void element, a comment, a CDATA section and a processing instruction is representable and covered, and the string
+   route computes the promised tree *)
+Example C05_string_example :
+  let f := mkfmt (Some subst_xml) (lit "/") html_cdata_containing_tags false (lit " ") in
+  let pw := default_preserve_whitespace_tags in
+  let tag (n : string) attrs void ks := NTag (mktag (lit n) None attrs false void pw) ks in
+  let cfg := mkacfg html_bcfg DupReplace (fun d _ _ => d) true None in
+  let t := NTag (mktag root_tag_name None [] true false pw)
+             [NStr 6 (lit "html");
+              tag "p"%string [(lit "title", RStr (lit "a&b'c<")); (lit "class", RList [lit "x"; lit "y"])] false
+                  [NStr 0 (lit "1 < 2 &amp; "); NStr 0 (lit "3"); tag "br"%string [] true []; NStr 4 (lit " c ")];
+              NStr 1 (lit "x"); NStr 2 (lit "pi ?")] in
+  representable_top f (html_rcfg false) html_bcfg t = true /\
+  toks_covered (html_rcfg false) (tokens_of true f t) = true /\
+  spec_run html_bcfg (adapted cfg (callbacks EntitySubst.unescape (decode true f None t))) =
+  flat_tree html_bcfg (norm true f html_bcfg t).
+Proof. repeat split; vm_compute; reflexivity. Qed.
+
